@@ -190,6 +190,16 @@ impl Script {
                     DataLengthConstraints::LessThanOrEquals => Ok(&data.len() <= len),
                 },
 
+                // OP_0 (the byte 00) is the push of no data
+                (MatchToken::Data(len, constraint), ScriptBit::OpCode(OP_0)) => match constraint {
+                    DataLengthConstraints::Equals => Ok(0 == *len),
+                    DataLengthConstraints::GreaterThan => Ok(false),
+                    DataLengthConstraints::LessThan => Ok(0 < *len),
+                    DataLengthConstraints::GreaterThanOrEquals => Ok(0 >= *len),
+                    DataLengthConstraints::LessThanOrEquals => Ok(true),
+                },
+                (MatchToken::AnyData, ScriptBit::OpCode(OP_0)) => Ok(true),
+
                 (MatchToken::AnyData, ScriptBit::Push(_)) => Ok(true),
                 (MatchToken::AnyData, ScriptBit::PushData(_, _)) => Ok(true),
 
@@ -221,6 +231,7 @@ impl Script {
             match (template, script) {
                 (MatchToken::Data(_, _), ScriptBit::PushData(_, data) | ScriptBit::Push(data)) => matches.push((MatchDataTypes::Data, data.clone())),
 
+                (MatchToken::Data(_, _) | MatchToken::AnyData, ScriptBit::OpCode(OP_0)) => matches.push((MatchDataTypes::Data, vec![])),
                 (MatchToken::AnyData, ScriptBit::Push(data)) => matches.push((MatchDataTypes::Data, data.clone())),
                 (MatchToken::AnyData, ScriptBit::PushData(_, data)) => matches.push((MatchDataTypes::Data, data.clone())),
 
